@@ -324,6 +324,110 @@ def C13(c):
              "60 steps; restored vs original on the continuation bit-for-bit; configurations round-trip to equal JSON")
 
 
+CROSS_SUITES = [("window", []), ("methods", []), ("api", ["--which", "routes"]), ("api", ["--which", "snapshot"]),
+                ("ind", []), ("indapi", ["--which", "snapshot"])]
+
+
+def cross_build(c, base_exe, other_exe, other_name, suites=CROSS_SUITES):
+    """identical programs (same seed, --compat) against two builds: transcripts must be bit-identical"""
+    tot_lines = tot_cases = 0
+    for suite, extra in suites:
+        tag = f"{c.prop}-x-{suite}-{'-'.join(e.strip('-') for e in extra)}"
+        ok1, ta, o1, _ = run_harness_only(base_exe, suite, c.seed, c.tier, tag + "-base", extra + ["--compat"])
+        ok2, tb, o2, _ = run_harness_only(other_exe, suite, c.seed, c.tier, tag + "-" + other_name, extra + ["--compat"])
+        if not (ok1 and ok2):
+            path = c.write_replay(f"crossbuild-{other_name}-{suite}", [f"# harness run failed: {o1} {o2}"])
+            c.violations.append((f"machinery:{other_name}:{suite}", path, "harness run failed"))
+            continue
+        n, cases, skipped, diff = compare_transcripts(ta, tb)
+        c.coverage.setdefault("cross_build_skipped_rejected_by_default", 0)
+        c.coverage["cross_build_skipped_rejected_by_default"] += skipped
+        tot_lines += n
+        tot_cases += cases
+        if diff:
+            lines = extract_case(ta, diff["case"]) if diff["case"] is not None else []
+            path = c.write_replay(f"crossbuild-{other_name}-{suite}-case{diff['case']}", [
+                f"# property {c.prop}: build '{other_name}' differs from the default build on identical input",
+                f"# suite {suite} {' '.join(extra)} seed {c.seed} line {diff['line']}",
+                f"# default: {diff['a']}", f"# {other_name}: {diff['b']}",
+                f"# signature crossbuild:{other_name}:{suite}"] + lines)
+            sig = f"crossbuild:{other_name}:{suite}"
+            known = [k for k in c.known if k["property"] == c.prop and k["key"] == sig]
+            if known:
+                c.known_hits.setdefault(sig, known[0]["text"])
+            else:
+                c.violations.append((sig, path, f"{diff['a']} vs {diff['b']}"))
+    c.coverage["programs"] += tot_cases
+    c.coverage["disagreements_checked"] += tot_lines
+    c.coverage.setdefault("cross_build", {})[other_name] = {"cases": tot_cases, "lines_compared": tot_lines}
+
+
+def C19(c):
+    run_extract(c)
+    c.proofs()
+    base = need_harness(c)
+    uns = need_harness(c, features=("unsafe_performance",))
+    if base and uns:
+        cross_build(c, base, uns, "unsafe_performance")
+        # the unsafe build against the model as well (window + selection methods, where the unchecked accesses live)
+        r = run_suite(uns, "window", c.seed, c.tier, "C19-window-unsafe", ["--compat"])
+        r["tag"] = "unsafe"
+        c.add_suite(r, sig_window)
+        r = run_suite(uns, "methods", c.seed, c.tier, "C19-smm-unsafe", ["--methods", "smm,medad,highest,lowest,hindex,lindex,sma,past"])
+        r["tag"] = "unsafe"
+        c.add_suite(r, sig_method)
+    return c.finish(
+        level="proof",
+        trusted=TRUSTED_COMMON + [
+            "Rust semantics: get_unchecked(i) = [i] and ptr::copy = copy_within when the accessed ranges are in bounds (trusted); "
+            "the theorems show the model's index expressions at every unchecked site are in bounds under the representation invariant",
+            "memory safety of the compiled artefact is a runtime fact no model can exhibit: the two builds are compared bit-for-bit "
+            "on identical programs (differential), thorough tier adds the feature build of the window/SMM programs under Miri when available",
+        ],
+        rule="the same seed and generators (window programs for every capacity, all method suites, API routes, snapshots, all indicator "
+             "transcripts and snapshots) are executed by the default build and the unsafe_performance build; every transcript line "
+             "must be bit-identical; the unsafe build is also replayed through the Lean model")
+
+
+FEATURE_SETS = [("period_type_u16",), ("period_type_u32",), ("period_type_u64",),
+                ("period_type_u16", "unsafe_performance"), ("period_type_u64", "unsafe_performance")]
+
+
+def C20(c):
+    c.proofs()
+    base = need_harness(c)
+    sets = FEATURE_SETS if c.tier == "thorough" else FEATURE_SETS[:3]
+    if base:
+        for fs in sets:
+            exe = need_harness(c, features=fs)
+            if exe:
+                cross_build(c, base, exe, "+".join(fs), suites=CROSS_SUITES if c.tier == "thorough" else CROSS_SUITES[:2] + CROSS_SUITES[4:5])
+        # definitional equalities beyond 255 in a wide build, and at single precision
+        wide = need_harness(c, features=("period_type_u16",))
+        if wide:
+            r = run_suite(wide, "methods", c.seed, c.tier, "C20-wide", ["--wide"])
+            r["tag"] = "u16-wide"
+            c.add_suite(r, sig_method)
+            r = run_suite(wide, "window", c.seed, c.tier, "C20-wide-window")
+            r["tag"] = "u16"
+            c.add_suite(r, sig_window)
+        f32 = need_harness(c, features=("value_type_f32",))
+        if f32:
+            r = run_suite(f32, "methods", c.seed, c.tier, "C20-f32")
+            r["tag"] = "f32"
+            c.add_suite(r, sig_method)
+    return c.finish(
+        level="proof",
+        trusted=TRUSTED_COMMON + NUMERIC_TRUST + [
+            "the C01-C04/C10/C14 theorems are stated for an arbitrary maximum P of PeriodType and an arbitrary ordered field, so they "
+            "cover every width and precision; feature builds are compiled artefacts: compared differentially (bit-identical transcripts "
+            "for parameters <= 254; model replay with P = 65535 and lengths up to 5000; f32 with eps = 2^-23, C = 64)",
+        ],
+        rule="builds {u16,u32,u64 (+unsafe_performance in thorough)} vs default on identical --compat programs (window, methods, indicators; "
+             "thorough adds API routes and snapshots): bit-identical; u16 build: method suite with lengths 255..5000 and window capacities "
+             "to 4096 through the Lean model at P=65535; f32 build: full method suite through the model at single-precision allowance")
+
+
 def replay(prop, path):
     """re-run a replay file: real code through the harness, then the driver"""
     text = open(path).read()
@@ -361,4 +465,4 @@ def replay(prop, path):
     return 1 if res["mismatches"] or res.get("error") else 0
 
 
-PROPS = {"C01": C01, "C02": C02, "C03": C03, "C04": C04, "C14": C14, "C16": C16, "C18": C18, "C17": C17, "C09": C09, "C08": C08, "C10": C10, "C11": C11, "C13": C13}
+PROPS = {"C01": C01, "C02": C02, "C03": C03, "C04": C04, "C14": C14, "C16": C16, "C18": C18, "C17": C17, "C09": C09, "C08": C08, "C10": C10, "C11": C11, "C13": C13, "C19": C19, "C20": C20}
